@@ -221,7 +221,16 @@ type Corr struct {
 	impl            map[string]string
 	info            map[string]interface{}
 	n               int
+	first           int // case number of lines[0] minus one (cases before it were flushed)
+	bytes           int
+	keepAll         bool // the caller reads `lines` itself after the last add: never flush early
 }
+
+// corrFlushBytes: a stage hands its pending cases to the driver once they take this much memory
+const corrFlushBytes = 96 << 20
+
+// globalCtx is set by main; Corr.add uses it to flush large batches early
+var globalCtx *Ctx
 
 func newCorr(stage string) *Corr {
 	return &Corr{Stage: stage, impl: map[string]string{}, info: map[string]interface{}{}}
@@ -231,9 +240,37 @@ func newCorr(stage string) *Corr {
 func (c *Corr) add(payload string, impl string, info interface{}) {
 	c.n++
 	k := strconv.Itoa(c.n)
-	c.lines = append(c.lines, c.Stage+" "+k+" "+strings.TrimSpace(payload))
+	line := c.Stage + " " + k + " " + strings.TrimSpace(payload)
+	c.lines = append(c.lines, line)
 	c.impl[k] = impl
 	c.info[k] = info
+	c.bytes += len(line) + len(impl)
+	if c.bytes > corrFlushBytes && globalCtx != nil && !c.keepAll {
+		c.flush(globalCtx)
+	}
+}
+
+// flush runs the model on the pending cases, records mismatches and forgets the cases
+func (c *Corr) flush(ctx *Ctx) {
+	if len(c.lines) == 0 {
+		return
+	}
+	ans, err := runDriver(ctx.Driver, c.lines)
+	if err != nil {
+		ctx.Rep.mismatch(c.Stage, "driver-failed", err.Error(), "")
+	} else {
+		for i, line := range c.lines {
+			k := strconv.Itoa(c.first + i + 1)
+			if ans[k] != c.impl[k] {
+				ctx.Rep.mismatch(c.Stage, map[string]interface{}{"info": c.info[k], "line": trunc(line, 4000)}, ans[k], c.impl[k])
+			}
+		}
+	}
+	c.first += len(c.lines)
+	c.lines = nil
+	c.impl = map[string]string{}
+	c.info = map[string]interface{}{}
+	c.bytes = 0
 }
 
 // run executes the model on all cases and records mismatches in the report.
@@ -242,20 +279,7 @@ func (c *Corr) run(ctx *Ctx) {
 		ctx.Rep.mismatch(c.Stage+"-premise", nil, "premise holds", pf)
 	}
 	ctx.Rep.CorrCases[c.Stage] += c.n
-	if c.n == 0 {
-		return
-	}
-	ans, err := runDriver(ctx.Driver, c.lines)
-	if err != nil {
-		ctx.Rep.mismatch(c.Stage, "driver-failed", err.Error(), "")
-		return
-	}
-	for i := 1; i <= c.n; i++ {
-		k := strconv.Itoa(i)
-		if ans[k] != c.impl[k] {
-			ctx.Rep.mismatch(c.Stage, map[string]interface{}{"info": c.info[k], "line": trunc(c.lines[i-1], 4000)}, ans[k], c.impl[k])
-		}
-	}
+	c.flush(ctx)
 }
 
 func trunc(s string, n int) string {
